@@ -10,7 +10,7 @@ elements are uninterpreted functions of the index.
 import z3
 
 from .core import OutOfSubset, fresh_name
-from .values import NTuple, Opaque, PyList, SymSeq, StrSeq, Tok, Inst
+from .values import NTuple, Opaque, PyList, SymSeq, StrSeq, Tok, Inst, StrId
 from .ops import OptionalVal
 
 CUSTOM_TYPES = {}   # name -> callable(interp, name) -> value
@@ -118,11 +118,3 @@ def z3k(k):
     return k
 
 
-class StrId(object):
-    """A string known only up to equality: identified by an Int term."""
-
-    def __init__(self, ident):
-        self.ident = ident
-
-    def __repr__(self):
-        return "<strid %s>" % self.ident
